@@ -777,6 +777,9 @@ fn main() {
             unsafe impl<T> Send for Shared<T> {}
             let ordered = num(2) != 0;
             let (runs, threads, per) = (num(3) as usize, num(4) as usize, num(5) as usize);
+            // optional 6th argument "mixed" (plain queue only): pops race with the pushes
+            let mixed = !ordered && args.get(6).map(String::as_str) == Some("mixed");
+            let mut mixed_popped = 0usize;
             let mut bad = Vec::new();
             for run in 0..runs {
                 let (reported, drained) = if ordered {
@@ -787,6 +790,21 @@ fn main() {
                     let mut n = 0;
                     while q.0.pop().is_some() { n += 1; }
                     (reported, n)
+                } else if mixed {
+                    // one pusher (in small bursts, so that the queue keeps running empty) and `threads` poppers racing with it
+                    let q = std::sync::Arc::new(Shared(open_coroutine_core::common::work_steal::WorkStealQueue::<usize>::new(1, 4)));
+                    let done = std::sync::Arc::new(std::sync::atomic::AtomicBool::new(false));
+                    let poppers: Vec<_> = (0..threads).map(|_| { let q = q.clone(); let done = done.clone(); std::thread::spawn(move || { let q = &*q; let mut n = 0usize; while !done.load(std::sync::atomic::Ordering::Acquire) { if q.0.pop().is_some() { n += 1; } } n }) }).collect();
+                    for i in 0..per { q.0.push(i); if i % 3 == 0 { std::thread::yield_now(); } }
+                    std::thread::sleep(std::time::Duration::from_millis(2));
+                    done.store(true, std::sync::atomic::Ordering::Release);
+                    let popped: usize = poppers.into_iter().map(|h| h.join().unwrap()).sum();
+                    let reported = q.0.len();
+                    let mut n = 0;
+                    while q.0.pop().is_some() { n += 1; }
+                    // everything pushed must be accounted for: popped by the threads, or still reported AND drainable
+                    mixed_popped = popped;
+                    (reported, n)
                 } else {
                     let q = std::sync::Arc::new(Shared(open_coroutine_core::common::work_steal::WorkStealQueue::<usize>::new(1, 4)));
                     let hs: Vec<_> = (0..threads).map(|t| { let q = q.clone(); std::thread::spawn(move || { let q = &*q; for i in 0..per { q.0.push(t * per + i); } }) }).collect();
@@ -796,6 +814,12 @@ fn main() {
                     while q.0.pop().is_some() { n += 1; }
                     (reported, n)
                 };
+                if mixed {
+                    if reported != drained || mixed_popped + drained != per {
+                        bad.push(format!("{{\"run\": {run}, \"pushed\": {per}, \"popped_by_threads\": {mixed_popped}, \"reported_len\": {reported}, \"drained_by_pop\": {drained}}}"));
+                    }
+                    continue;
+                }
                 if reported != threads * per || drained != threads * per {
                     bad.push(format!("{{\"run\": {run}, \"pushed\": {}, \"reported_len\": {reported}, \"drained_by_pop\": {drained}}}", threads * per));
                 }
@@ -997,6 +1021,19 @@ fn main() {
                 std::process::exit(0);
             }
             CoroutinePool::try_cancel_task(id);
+            if args.get(2).map(String::as_str) == Some("late") {
+                // the pool is stopped first; a LATE waiter's wait times out; stop() is requested again; the waiter's next wait must
+                // get the stop error
+                let stop1 = pool.stop(std::time::Duration::from_millis(500)).is_ok();
+                let id = 0x5eed_u64;
+                let first = pool.wait_task_result(id, std::time::Duration::from_millis(10)).map(|_| ()).map_err(|_| ());
+                let stop2 = pool.stop(std::time::Duration::from_millis(500)).is_ok();
+                let t1 = Instant::now();
+                let second = pool.wait_task_result(id, std::time::Duration::from_millis(300));
+                let second_s = match second { Ok(Ok(_)) => "value", Ok(Err(_)) => "error", Err(_) => "timeout" };
+                println!("{{\"first_stop_ok\": {stop1}, \"first_timed_out\": {}, \"stop_ok\": {stop2}, \"second_poll\": \"{second_s}\", \"second_waited_ms\": {}}}", first.is_err(), t1.elapsed().as_millis());
+                std::process::exit(0);
+            }
             if args.get(2).map(String::as_str) == Some("polls") {
                 // a waiter polls (10 ms limit, times out), the pool is stopped, the waiter polls again: it must get the stop error
                 // (an id nobody will ever complete, as in the harness: the waiter can only be answered by the stop)
